@@ -144,9 +144,6 @@ def check_c11(pid, tier, seed, replay):
     # one command deeper on the two shortest looping programs (a back edge to the first command)
     cases, n = mc_dbg(ck, 4 if quick else 5, "{7, 8}")
     validate_sessions(ck, run_cli("dbg", cases, "R4"), 14, describe_dbg, "R4")
-    if not quick:
-        cases, n = mc_dbg(ck, 5, "{2, 3}")
-        validate_sessions(ck, run_cli("dbg", cases, "R5"), 14, describe_dbg, "R5")
     with open(cases) as f:
         f.readline()
         c = json.loads(f.readline())
